@@ -21,6 +21,7 @@ struct Plan : sim::PlanBase {
   int variant = 0;         // tool specific option bits
   int block = 0;           // block length (csg_stat)
   int vol_jitter = 0;      // 1: the box volume differs from frame to frame
+  long sparse_mask = 0;    // bit f set: frame f+1 places the molecules on a lattice wider than any cut-off (no inter-molecular pair)
   long alloc_stride = 0;   // > 0: every alloc_stride-th C++ allocation of an evaluating worker is a decision point
 };
 
